@@ -253,6 +253,8 @@ pub enum Target {
     FromEnd(i32),
     /// distance before byte k * 2^38 (block k * 2^32: carry out of the low counter word)
     Carry(u8, i32),
+    /// far before the end of the keystream (up to a few MiB): a following "to the end" request is large
+    FromEndBig(u32),
 }
 
 #[derive(Clone, Debug, Serialize, Deserialize)]
@@ -309,13 +311,14 @@ fn target(v: Variant, boundary_heavy: bool) -> BoxedStrategy<Target> {
     };
     if boundary_heavy {
         prop_oneof![
-            5 => (-700i32..700).prop_map(Target::FromEnd),
-            if v.layout == Layout::Ietf { 0 } else { 4 } => (0u8..8, -200i32..1200).prop_map(|(k, d)| Target::Carry(k, d)),
-            2 => (-300i32..300).prop_map(Target::Rel),
-            2 => (-3i8..4, -1i8..64).prop_map(|(b, o)| Target::Block(b, o)),
-            2 => abs,
-            2 => beyond,
-            1 => Just(Target::Abs(W128(0))),
+            30 => (-700i32..700).prop_map(Target::FromEnd),
+            if v.layout == Layout::Ietf { 1 } else { 0 } => prop_oneof![(1_000_000u32..3_400_000), (1u32..50).prop_map(|k| k * 65_536 + 7)].prop_map(Target::FromEndBig),
+            if v.layout == Layout::Ietf { 0 } else { 24 } => (0u8..8, -200i32..1200).prop_map(|(k, d)| Target::Carry(k, d)),
+            12 => (-300i32..300).prop_map(Target::Rel),
+            12 => (-3i8..4, -1i8..64).prop_map(|(b, o)| Target::Block(b, o)),
+            12 => abs,
+            12 => beyond,
+            6 => Just(Target::Abs(W128(0))),
         ]
         .boxed()
     } else {
@@ -419,6 +422,7 @@ pub fn history_check(prop: &str, h: &History, info: &mut CaseInfo) -> Result<(),
                     Target::Block(b, o) => ((pos / 64) as i128 + *b as i128) * 64 + *o as i128,
                     Target::FromEnd(d) => limit.min(1u128 << 64) as i128 - *d as i128,
                     Target::Carry(k, d) => (((*k as i128) % 8 + 1) << 38) - *d as i128,
+                    Target::FromEndBig(d) => limit.min(1u128 << 64) as i128 - *d as i128,
                 };
                 // huge u128 values (above i128::MAX) are only expressible as U128
                 let (big, tv): (u128, i128) = match tgt {
@@ -477,7 +481,8 @@ pub fn history_check(prop: &str, h: &History, info: &mut CaseInfo) -> Result<(),
                     LenSpec::ToBlockEnd(d) => ((64 - (pos % 64) as i64) % 64 + *d as i64).max(0) as usize,
                     LenSpec::ToStreamEnd(d) => {
                         let left = limit - pos.min(limit);
-                        if left <= 1500 { (left as i64 + *d as i64).max(0) as usize } else { (700 + *d as i64) as usize }
+                        // up to ~3.5 MiB a request really runs to the end of the keystream (+- d)
+                        if left <= 3_600_000 { (left as i64 + *d as i64).max(0) as usize } else { (700 + *d as i64) as usize }
                     }
                 };
                 let mut data: Vec<u8> = (0..n + 32).map(|_| splitmix(&mut ds) as u8).collect();
@@ -511,6 +516,7 @@ pub fn history_check(prop: &str, h: &History, info: &mut CaseInfo) -> Result<(),
                             info.label_if(pos + n as u128 == limit, "request ends exactly at the limit");
                             info.label_if(pos / 64 < (1 << 32) && (pos + n as u128) / 64 >= (1 << 32) && v.layout != Layout::Ietf, "crosses block 2^32");
                             info.label_if(n >= 256, "wide path");
+                            info.label_if(n > (1 << 20), "request longer than 1 MiB");
                             after_midblock_seek = false;
                             pos += n as u128;
                             last_apply_ended_midblock = pos % 64 != 0;
